@@ -10,5 +10,5 @@ run() { # patch prop label
   case "$r" in *"caught by: $2"*) ;; *) echo "NOT CAUGHT: $3 ($r)"; miss=$((miss+1));; esac
 }
 for f in mutants/*.patch; do run "$ROOT/$f" "$(basename $f | cut -c1-3)" "$f"; done
-for d in seeded/*/ mutants/beyond-bounds/*/; do [ -f "$d/patch.diff" ] && run "$ROOT/$d/patch.diff" "$(basename $d | cut -c1-3)" "$d"; done
+for d in seeded/*/ mutants/beyond-bounds/*/ mutants/data-dependent/*/; do [ -f "$d/patch.diff" ] && run "$ROOT/$d/patch.diff" "$(basename $d | cut -c1-3)" "$d"; done
 echo "regress: $n changes, $miss not caught"
